@@ -79,6 +79,9 @@ func sign(k *c15Key, payload []byte) string {
 			return compact
 		}
 		sig, err := base64.RawURLEncoding.DecodeString(segments(compact)[2])
+		if err == nil && !verifrt.NativeRetryUntil("sig-len", len(sig)) {
+			continue // natively: sign again until the signature has the length seen on the replayed path
+		}
 		if err != nil || len(sig) != 2*k.size {
 			verifrt.Fail("ECDSA signature is not 2 x curve size bytes")
 			return compact
@@ -156,8 +159,8 @@ func c15RoundTrip(kind, maxLZ int) {
 	}
 }
 
-// Harness_C15_RoundTrip: all five key types; keys, r and s with up to one leading zero byte.
-func Harness_C15_RoundTrip() { c15RoundTrip(verifrt.Choose("key-type", 5), 1) }
+// Harness_C15_RoundTrip: all five key types; keys, r and s with up to two leading zero bytes.
+func Harness_C15_RoundTrip() { c15RoundTrip(verifrt.Choose("key-type", 5), 2) }
 
 // HarnessT_C15_RoundTripWide: up to 3 leading zero bytes in every coordinate and signature half.
 func HarnessT_C15_RoundTripWide() { c15RoundTrip(verifrt.Choose("key-type", 5), 3) }
